@@ -477,7 +477,13 @@ pub fn run_cases(area: &Area, cmds: &[String], dir: &str, dist: &Dist) {
     }
     for (i, c) in cmds.iter().enumerate() {
         let (o, v) = results[i].lock().unwrap().take().unwrap();
-        writeln!(cases, "{} {}", i, c).unwrap();
+        // an observation "OBS ||| EXTRA" hands EXTRA (data only the implementation can supply,
+        // e.g. the encoder's symbol trace) to the model as one more argument of the case line
+        let (o, extra) = match o.split_once(" ||| ") {
+            Some((a, b)) => (a.to_string(), format!(" {b}")),
+            None => (o, String::new()),
+        };
+        writeln!(cases, "{} {}{}", i, c, extra).unwrap();
         writeln!(imp, "{} {}", i, o).unwrap();
         writeln!(oracle, "{} {}", i, v).unwrap();
     }
